@@ -333,7 +333,10 @@ def check_down(case, ctx):
             raise Violation("downsample:values", ctxt)
     else:
         a = arr.astype(np.float64)
-        ok = (a == np.floor(m + 1e-9)) | (a == np.floor(m + 0.5)) | (a == np.round(m))
+        # floor or round of the block mean; an exactly-integer mean may be evaluated 1 ulp low before the
+        # truncating cast (reciprocal multiplication under fastmath), so floor(m - delta) is accepted too
+        dl = 1e-9 * np.maximum(1.0, np.abs(m))
+        ok = (a == np.floor(m + dl)) | (a == np.floor(m - dl)) | (a == np.floor(m + 0.5)) | (a == np.round(m))
         if not np.all(ok):
             bad = np.argwhere(~ok)[0]
             raise Violation("downsample:values", f"{ctxt}: out[{bad.tolist()}]={a[tuple(bad)]} but block mean is {m[tuple(bad)]}")
